@@ -10,7 +10,7 @@ package localnonvcs
 //@ func (*changeOps).WriteOrCreateFiles
 //@   requires forall(k, 0 <= k && k < len(files) ==> files[k] != nil)
 //@   assigns nothing
-//@   modifies fsFile
+//@   modifies fsFile, fsDirOps
 //@   sweep[C13]
 //@   ghostparam a Int
 //@   ghostparam n String
@@ -18,3 +18,11 @@ package localnonvcs
 //@   ensures[C13] forall(k, Int, 0 <= k && k < len(files) ==> files[k].Path != n) ==> fsFile[n] == old(fsFile)[n]
 //@   loop 1 invariant[C13] 0 <= a && a <= rangeindex && forall(j, Int, a < j && j <= rangeindex ==> files[j].Path != files[a].Path) ==> fsFile[files[a].Path] == val(files[a].Contents)
 //@   loop 1 invariant[C13] forall(k, Int, 0 <= k && k <= rangeindex ==> files[k].Path != n) ==> fsFile[n] == old(fsFile)[n]
+
+// C15 (dry-run and measurement-only runs have no side effects): validating the --out_root flag - which happens before
+// the run mode is known - only inspects the file system: it creates no directory and writes no file.
+//@ func (*T).PersistentPreRunE
+//@   requires t != nil
+//@   assigns nothing
+//@   modifies fsFile, fsDirOps
+//@   ensures[C15] fsDirOps == old(fsDirOps) && fsFile == old(fsFile)
